@@ -231,7 +231,7 @@ RULE = ("scenario = stacks x max_cmdt_packets x message set x submission order x
         "multi-packet transfer")
 ASSUME = ["payload contents outside three patterns are not enumerated (the transport does not branch on payload bytes)",
           "latencies on a grid, not the continuum; one receive thread per stack that never re-enters itself",
-          "PDU1 PGNs are compared modulo the PS byte"]
+          "the PGN of a PDU1 group is (data page, PF, 0): the PS byte is the destination"]
 
 
 def run(tier, seed):
